@@ -66,6 +66,7 @@ pub fn read_bigsize(b: &[u8], pos: usize) -> Option<(u64, usize, bool)> {
 }
 
 #[derive(Clone, Debug)]
+#[allow(dead_code)]
 pub struct Rec {
 	pub typ: u64,
 	pub typ_off: usize,
